@@ -215,7 +215,7 @@ M("cb_before_memory_update", "callback state built from the memory before the up
 M("cb_xk_alias", "xk handed to the callback is the live iterate", ["C07"],
   ("lbfgsb/main.py", "                if callback(\n                    np.copy(x),\n", "                if callback(\n                    x,\n"))
 M("cb_nfev_stale", "callback state carries nfev of the previous iteration", ["C07", "C05"],
-  ("lbfgsb/main.py", "        f0_old = copy.copy(f0)\n\n        # find cauchy point", "        f0_old = copy.copy(f0)\n        _nfev_prev = sf.nfev\n\n        # find cauchy point"),
+  ("lbfgsb/main.py", "        f0_old = copy.copy(f0)\n\n        # an objective that is unbounded", "        f0_old = copy.copy(f0)\n        _nfev_prev = sf.nfev\n\n        # an objective that is unbounded"),
   ("lbfgsb/main.py", "                        jac=np.copy(grad),\n                        nfev=sf.nfev,\n                        njev=sf.ngev,\n                        nit=istate.nit + 1,", "                        jac=np.copy(grad),\n                        nfev=_nfev_prev,\n                        njev=sf.ngev,\n                        nit=istate.nit + 1,"))
 M("restart_placeholder_gradient", "pinned defect: a restart from a result that computed no gradient takes its zero placeholder for the gradient (reverse of fix f6328a5)", ["C01"],
   ("lbfgsb/main.py", "    if checkpoint is None or checkpoint.njev == 0:\n        grad = sf.grad(x)\n", "    if checkpoint is None:\n        grad = sf.grad(x)\n"))
@@ -223,6 +223,8 @@ M("cp_no_initial_f2_floor", "pinned defect: no safeguard on the initial second d
   ("lbfgsb/cauchy.py", "        f_second = max(f_second, eps_f_sec * f2_org)\n\n    # dtm in the fortran code", "\n    # dtm in the fortran code"))
 M("cb_state_jac_alias", "pinned defect: the callback state shares the solver's gradient array (reverse of fix e46799a)", ["C14"],
   ("lbfgsb/main.py", "                        jac=np.copy(grad),\n", "                        jac=grad,\n"))
+M("no_overflow_guard", "pinned defect: no termination when theta * g.g overflows on an objective unbounded below (reverse of fix f09f8fb)", ["C04"],
+  ("lbfgsb/main.py", "        if not np.isfinite(mats.theta * grad.dot(grad)):\n", "        if False:\n"))
 M("cb_false_resets_memo", "a callback (even returning False) changes the run: extra evaluation after the callback", ["C07"],
   ("lbfgsb/main.py", "                    istate.task_str = \"STOP: USER CALLBACK\"\n                    istate.is_success = True\n",
    "                    istate.task_str = \"STOP: USER CALLBACK\"\n                    istate.is_success = True\n                else:\n                    sf.update_x(x + 0.0)\n                    f0 = sf.fun(x)\n"))
